@@ -292,6 +292,12 @@ def run_replay(prop, path):
         return 1
     msg = prop.oracle(payload['case'])
     if msg:
+        key = prop.classify(payload['case'], msg)
+        for k in load_known()['known']:
+            if k['property'] == prop.ID and k['key'] == key:
+                print(f"KNOWN-FINDING: property={prop.ID} {k['description']}")
+                print('  ' + str(msg)[:500])
+                return 0
         print(f'VIOLATION property={prop.ID} replay={path}')
         print('  ' + str(msg)[:500])
         return 1
